@@ -32,6 +32,12 @@ def plan(tier):
     for K in (1, 2, 3):
         for script in itertools.product(KINDS, repeat=d if K == 1 else d - 1):
             sweeps.append(("prefix", {"K": K, "script": list(script), "n_host": 3, "n_ncp": 2, "cancel_den": 0, "sched": False}))
+    # one side gives up (its frame lost on every attempt), THEN the other side sends: what the survivor's receiver accepts and acknowledges is
+    # still handed up, what it does not hand up is not acknowledged
+    for K in (1, 2, 3):
+        sweeps.append(("prefix", {"K": K, "drop_first": ["h2n", 5], "n_host": 1, "n_ncp": 3, "ncp_start": 15.0, "cancel_den": 0, "sched": False, "recover": False}))
+        sweeps.append(("prefix", {"K": K, "drop_first": ["h2n", 5], "n_host": 2, "n_ncp": 3, "ncp_start": 15.0, "cancel_den": 0, "sched": False}))
+        sweeps.append(("prefix", {"K": K, "drop_first": ["n2h", 5], "n_host": 3, "n_ncp": 1, "host_start": 15.0, "cancel_den": 0, "sched": False, "recover": False}))
     return {
         "sweeps": sweeps,
         "exhaustive": f"all 5^d fault assignments to the first d wire frames (d={d} for K=1, {d-1} for K=2,3), 3 host + 2 NCP payloads, benign schedule",
